@@ -11,15 +11,9 @@ fn exact(a: i64, op: ArithmeticOp, b: i64) -> Option<i128> {
                ArithmeticOp::Divide => if b == 0 { None } else { Some(a / b) } }
 }
 
-// @vt prop=C20 tier=quick bound="+, -, *, / on every pair of i64" outside="float operands (rounding); the duplicate evaluator in sql/predicate.rs (private)" timeout=900
-vt_proof! { unwind = 2; fn c20_integer_arithmetic_all_pairs() {
-    let a: i64 = kani::any(); let b: i64 = kani::any();
-    let k: u8 = kani::any(); kani::assume(k < 4);
-    let op = match k { 0 => ArithmeticOp::Plus, 1 => ArithmeticOp::Minus, 2 => ArithmeticOp::Multiply, _ => ArithmeticOp::Divide };
+fn check(a: i64, op: ArithmeticOp, b: i64) {
     let want = exact(a, op, b);
     let got = OwnedValue::eval_arithmetic(&OwnedValue::Int(a), op, &OwnedValue::Int(b));
-    kani::cover!(k == 2 && matches!(want, Some(w) if w > i64::MAX as i128), "w:multiplication_overflows");
-    kani::cover!(k == 3 && a == i64::MIN && b == -1, "w:min_divided_by_minus_one");
     match (want, &got) {
         (Some(w), Some(OwnedValue::Int(g))) => assert!(*g as i128 == w, "role=integer_result_is_exact_not_wrapped"),
         (Some(w), None) => assert!(w > i64::MAX as i128 || w < i64::MIN as i128, "role=representable_result_is_returned"),
@@ -27,6 +21,25 @@ vt_proof! { unwind = 2; fn c20_integer_arithmetic_all_pairs() {
         (None, None) => {}
         _ => assert!(false, "role=integer_operands_give_integer_result"),
     }
+}
+
+// @vt prop=C20 tier=quick bound="+ and - on every pair of i64" outside="float operands (rounding); the duplicate evaluator in sql/predicate.rs (private)" timeout=900
+vt_proof! { unwind = 2; fn c20_integer_add_sub_all_pairs() {
+    let a: i64 = kani::any(); let b: i64 = kani::any();
+    let plus: bool = kani::any();
+    kani::cover!(plus && a > 0 && b > 0 && (a as i128 + b as i128) > i64::MAX as i128, "w:addition_overflows");
+    if plus { check(a, ArithmeticOp::Plus, b) } else { check(a, ArithmeticOp::Minus, b) }
+}}
+
+// @vt prop=C20 tier=quick bound="* on every i64 times every i16-range multiplier (symbolic 64x64-bit multiplication does not terminate in CBMC), / of every i64 by every divisor in -3..=3 (incl. 0 and i64::MIN / -1)" outside="multipliers outside the i16 range; other divisors" timeout=1200 mem=16
+vt_proof! { unwind = 2; fn c20_integer_mul_div_bounded() {
+    let a: i64 = kani::any(); let b: i64 = kani::any();
+    let mul: bool = kani::any();
+    if mul { kani::assume(b >= i16::MIN as i64 && b <= i16::MAX as i64); } else { kani::assume(b >= -3 && b <= 3); }
+    kani::cover!(mul && (a as i128 * b as i128) > i64::MAX as i128, "w:multiplication_overflows");
+    kani::cover!(!mul && a == i64::MIN && b == -1, "w:min_divided_by_minus_one");
+    kani::cover!(!mul && b == 0, "w:division_by_zero");
+    if mul { check(a, ArithmeticOp::Multiply, b) } else { check(a, ArithmeticOp::Divide, b) }
 }}
 
 // @vt prop=C20 tier=quick bound="NULL or non-numeric operands: Null/Text with any operator" outside="-" timeout=600
